@@ -80,7 +80,14 @@ c18["technique"] = "TLA+ spec (Redb) checked by TLC; real ReDB-backed servers st
 c18["level_note"] = "Trusted: TLC, redb's own commit atomicity, the harness (runtime drop as process death). Cuts inside a redb commit are not produced; grave goods of one client only; values that collide with the file format (C09's findings) are avoided."
 CHECKS.append(c18)
 
-PENDING = ["C19","C20"]
+c20 = session("C20", "6/C20", "The real worterbuch_client library is connected over a unix socket to an in-process server; its handle is cloned to 2-4 tasks whose concurrent calls (all request kinds, typed and generic, the four unsubscribe variants each followed by a server-side probe of the subscription) are recorded per task and TLC decides whether some interleaving of the calls on the one connection explains every result, event stream and probe (Trace_Session with task logs sharing a client). The send buffer has its own implementation-shaped TLA+ model (hand-over channels, two buffers, delayed tasks, command queue) that TLC checks exhaustively for 'only the latest value per key leaves, as the kind it was handed in, nothing else, every buffered value has its timer' plus liveness; the real buffer runs on tokio's paused clock against a recording WbApi and TLC explains the observations with inferred internal steps.")
+c20["engine"] = "tlc-client"
+c20["technique"] = "TLA+ specs (Session over CoreSpec for the calls; SendBuffer for the buffer) checked by TLC; real client library driven by concurrent tasks / paused clock, task logs and send observations validated by TLC"
+c20["level_note"] = ("Trusted: TLC, the client harness (client_drv.rs: mapping of API results to the reply vocabulary, logical clock, marker flush), bin/sess.py. "
+                     "Unix socket transport and local_client_wrapper only; acquire_lock, spub, last-will helpers not driven; schedules are sampled.")
+CHECKS.append(c20)
+
+PENDING = ["C19"]
 
 def main():
     import props
@@ -95,7 +102,9 @@ def main():
                         enable="the harness crate /verif/harness depends on /repo/worterbuch with default-features=false, features=[\"verif\",\"redb\"]",
                         baseline_off_cmd=BASELINE,
                         source_commits=["e19d4a5", "8c537d5", "d18b355"], add_only=True),
-             engines=[dict(name="tlc-redb", path="spec/Redb.tla spec/Trace_Redb.tla harness/src/redb_drv.rs",
+             engines=[dict(name="tlc-client", path="spec/SendBuffer.tla spec/Trace_Buffer.tla spec/MC_C20buf.tla spec/Trace_Session.tla harness/src/client_drv.rs",
+                           serves_properties=["C20"], kind_free_text="client library over a real socket: task logs linearized by TLC; send buffer model + paused-clock trace validation"),
+                      dict(name="tlc-redb", path="spec/Redb.tla spec/Trace_Redb.tla harness/src/redb_drv.rs",
                            serves_properties=["C18"], kind_free_text="TLA+ model of queue, batching writer, crash and load; TLC; prefix-cut validation of real recoveries"),
                       dict(name="tlc-cluster", path="spec/Cluster.tla spec/Trace_Cluster.tla spec/MC_C11.tla harness/src/cluster_drv.rs",
                            serves_properties=["C11", "C12"], kind_free_text="TLA+ model of leader, command channels, followers, promotion; TLC; real multi-server runs validated"),
